@@ -27,7 +27,8 @@ class UnitSystem:
     ) -> None:
         self._id = id
         self._caption = caption
-        self._units_mapping = units_mapping
+        # a copy: unit systems must not share (nor change) the mapping given by the caller
+        self._units_mapping = dict(units_mapping)
         self._read_only = read_only
         self.on_default_unit: callback.Callback2[str, Optional[str]] = callback.Callback2()
 
